@@ -148,6 +148,7 @@ func plInterleaved(ctl *sched.Ctl) bool {
 
 func plExplore(t *testing.T, res *ev.Result, prop string, bound int, scs []*plScenario, chk plCheck, budget time.Duration) {
 	log.Info("warm up the logger outside the bubble")
+	schedQuiet()
 	sched.StartWatchdog(90 * time.Second)
 	e := sched.NewExplorer(t, bound)
 	e.Horizon = 12 * time.Second
@@ -163,7 +164,11 @@ func plExplore(t *testing.T, res *ev.Result, prop string, bound int, scs []*plSc
 		return
 	}
 	shard, nshard := ev.Shard()
+	only := os.Getenv("VERIF_ONLY")
 	for i, sc := range wrapped {
+		if only != "" && !strings.Contains(sc.Name, only) {
+			continue
+		}
 		e.Bound = bound
 		e.Shard, e.NShard = 0, 1
 		if scs[i].Bound != nil {
@@ -683,6 +688,7 @@ func TestVerifC04Drop(t *testing.T) {
 	res.Rule = "sched engine over the real channel manager and barriers: drop of a collection with 1..2 (3 thorough) shards where every shard's script ends with the drop message after differing amounts of data, drop of a partition on a 2-shard collection with partition registration racing the streams (and stream registration itself a scheduling point), stop without drop, stop racing a half-completed drop, restart with the collection / the partition already dropped upstream but present downstream (synthetic drop); all schedules within the deviation bound over delivery, driver start, pack.computed and barrier.signal points; oracle: exactly one drop request per dropped object with the right database / collection / partition / task / message timestamp, issued only after every shard delivered its drop message, none for stop, exactly one after restart; non-trivial = executions with interleaving inside the handler"
 	// the synthetic-drop expectation is per scenario
 	log.Info("warm up the logger outside the bubble")
+	schedQuiet()
 	sched.StartWatchdog(90 * time.Second)
 	e := sched.NewExplorer(t, bound)
 	e.Horizon = 12 * time.Second
@@ -704,7 +710,11 @@ func TestVerifC04Drop(t *testing.T) {
 		return
 	}
 	shard, nshard := ev.Shard()
+	only := os.Getenv("VERIF_ONLY")
 	for i, sc := range wrapped {
+		if only != "" && !strings.Contains(sc.Name, only) {
+			continue
+		}
 		e.Bound = bound
 		if scs[i].HeavyBound > 0 && scs[i].HeavyBound < bound {
 			e.Bound = scs[i].HeavyBound
